@@ -1,6 +1,7 @@
 CONSTANTS
   MaxLen = 2
   MaxBin = 4
+  MaxWords = 4
 SPECIFICATION GSpec
 CONSTRAINT Emit
 CHECK_DEADLOCK FALSE
